@@ -39,6 +39,9 @@ def run(ctx, col, tier):
              "polyline (def-use closure from the cumulative segment lengths): no return path -- in "
              "particular no shortcut -- is decided by, or built from, anything but positions "
              "along the path", floor=2)
+    col.rule("R-STATE", "applying a transform leaves the transform object unchanged: no method other than __init__ "
+             "assigns to self or mutates a container held by self without undoing it (stale removal lists, "
+             "a matrix conjugated twice, a cached array shared between results); zero expected, positive examples kept", floor=1)
     col.rule("R-PURE", "inputs untouched, results fresh", floor=3)
     col.not_decided += ["equal arc-length spacing / 'length never grows' / linearity of radii as numeric statements",
                         "scipy.signal.convolve behaviour"]
@@ -49,6 +52,8 @@ def run(ctx, col, tier):
     col.guard(writeset, ctx, col)
     col.guard(interp_family, ctx, col)
     col.guard(spacing, ctx, col)
+    from ..rules import stateless
+    col.guard(stateless.check, ctx, col, "R-STATE", ("swcgeom.transforms.tree", "swcgeom.transforms.geometry", "swcgeom.transforms.branch", "swcgeom.transforms.branch_tree", "swcgeom.transforms.base", "swcgeom.transforms.path", "swcgeom.transforms.population"))
     col.guard(arclen, ctx, col)
     col.guard(assemble, ctx, col)
     for cq, q in (("swcgeom.transforms.tree.IsometricResampler", "swcgeom.transforms.tree.Resampler.__call__"),
